@@ -78,7 +78,10 @@ def replay_known(pid):
             # a history, not a one-shot input: the property module replays it and prints the line itself
             classes.add(f['class'])
             continue
-        o = aglib.run_impl_one(w['query'], ''.join(w['input']).encode('utf8'), w.get('mode', 'json'))
+        winp = ''.join(w['input'])
+        if w.get('input_file'):
+            winp = open(os.path.join(aglib.VERIF, w['input_file']), encoding='utf8').read()
+        o = aglib.run_impl_one(w['query'], winp.encode('utf8'), w.get('mode', 'json'), timeout=60)
         out = o['out'].decode('utf8', 'replace').strip()
         still = True
         if w.get('correct_stdout_has') is not None:
@@ -87,11 +90,24 @@ def replay_known(pid):
             still = w['correct_stderr_has'] not in o['err'].decode('utf8', 'replace')
         elif w.get('correct_output') is not None:
             still = (out != w['correct_output'])
+        elif w.get('correct_stdout_line_count') is not None:
+            still = len(out.split('\n')) != w['correct_stdout_line_count']
+        elif f['class'] == 'ckms_rank_error_beyond_tolerance':
+            # still there iff the cell's true rank is further from the target than the documented 0.001 * n
+            try:
+                cell = json.loads(out)[0][w['pct_col']]
+                vals = sorted(json.loads(l)['x'] for l in winp.split('\n') if l)
+                ranks = [i + 1 for i, v in enumerate(vals) if v == cell]
+                err = min(abs(r - w['pct'] / 100.0 * len(vals)) for r in ranks) if ranks else None
+                still = err is None or err > 0.001 * len(vals)
+                out = '%s, true rank %s..%s of %d' % (out, ranks[0] if ranks else '?', ranks[-1] if ranks else '?', len(vals))
+            except (ValueError, KeyError, IndexError):
+                still = True
         elif f['class'] == 'dup_agg_column_name':
             still = out.count('"_sum"') >= 2 or o['rc'] == 0 and '"_sum"' in out and '11' not in out
         if still:
             classes.add(f['class'])
-            lines.append('%s %s [witness: %s on %r -> %s]' % (f['id'], f['what'], w['query'], ''.join(w['input'])[:80], out[:80]))
+            lines.append('%s %s [witness: %s on %r -> %s]' % (f['id'], f['what'], w['query'], (w.get('input_file') or ''.join(w['input']))[:80], out[:80]))
     return lines, classes
 
 
